@@ -29,6 +29,9 @@ def main(argv):
         if prop == "C05":
             import spice
             return spice.replay(prop, rp) if rp else spice.check(prop, tier)
+        if prop == "C17":
+            import cachechk
+            return cachechk.replay(prop, rp) if rp else cachechk.check(prop, tier)
         if prop == "C08":
             import locks
             return locks.replay(prop, rp) if rp else locks.check(prop, tier)
